@@ -256,7 +256,8 @@ theorem head_agree {c : σ} {segsH : List Seg} {clk now tx : Int} (hR : sem.R c 
 /-! ### the sections, on a running schedule -/
 
 theorem nextReader_run {sh : Sh σ} {segs : List Seg} {clk now : Int} (h : ShRelR sem sh segs clk) (hle : clk ≤ now) :
-    ∃ A', AbsStepN (.running segs) now (nextReader ops sh now).2 A' ∧ ShRel sem (nextReader ops sh now).1 A' now ∧
+    ∃ segs', AbsStepN (.running segs) now (nextReader ops sh now).2 (.running segs') ∧
+      ShRel sem (nextReader ops sh now).1 (.running segs') now ∧
       GotoOK sem (nextReader ops sh now).1 now (nextReader ops sh now).2 ∧
       Adv sem sh clk (nextReader ops sh now).1 now := by
   obtain ⟨cs, la, started⟩ := sh
@@ -272,7 +273,7 @@ theorem nextReader_run {sh : Sh σ} {segs : List Seg} {clk now : Int} (h : ShRel
   cases hok : (segNext segsH now).2.2 with
   | true =>
     simp only [if_true]
-    refine ⟨.running (dead ++ (segNext segsH now).1 ++ inst ps.flatten (finOf segsH 0)), ?_, ?_, trivial, hadv⟩
+    refine ⟨(dead ++ (segNext segsH now).1 ++ inst ps.flatten (finOf segsH 0)), ?_, ?_, trivial, hadv⟩
     · exact absNext_running _ now _ _ _ (segNext_mid dead segsH _ clk now hD hle hne hok) hok
     · exact ⟨c', rest, dead, _, ps, rfl, rfl, rfl, hR', hU, hD', by unfold segNext; rw [finOf_segNextAux]⟩
   | false =>
@@ -284,14 +285,14 @@ theorem nextReader_run {sh : Sh σ} {segs : List Seg} {clk now : Int} (h : ShRel
     match rest, ps, hU with
     | [], [], _ =>
       simp only [List.isEmpty_nil, if_true]
-      refine ⟨.running (dead ++ segsH ++ inst ([] : List (List Part)).flatten (finOf segsH 0)), ?_, ?_, trivial, hadv⟩
+      refine ⟨(dead ++ segsH ++ inst ([] : List (List Part)).flatten (finOf segsH 0)), ?_, ?_, trivial, hadv⟩
       · refine absNext_running _ now _ _ _ ?_ hok
         simp only [List.flatten_nil, inst, List.append_nil]
         rw [segNext_last dead segsH clk now hD hle hne, hsame']
       · exact ⟨c', [], dead, segsH, [], rfl, rfl, rfl, hR', trivial, hD', rfl⟩
     | h :: t, p :: ps', hU =>
       simp only [List.isEmpty_cons, Bool.false_eq_true, if_false]
-      refine ⟨.running _, rfl, ⟨c', h :: t, dead, segsH, p :: ps', rfl, rfl, rfl, hR', hU, hD', rfl⟩, ?_, hadv⟩
+      refine ⟨_, rfl, ⟨c', h :: t, dead, segsH, p :: ps', rfl, rfl, rfl, hR', hU, hD', rfl⟩, ?_, hadv⟩
       refine ⟨rfl, by simp, by simp, fun _ => ⟨c', h :: t, rfl, segsH, hR', hdeadH, htx'⟩⟩
 
 theorem startNext_run {c h : σ} {t : List σ} {la : List Int} {st : Bool} {p : List Part} (hU : sem.U h p) (tx : Int) :
@@ -301,8 +302,8 @@ theorem startNext_run {c h : σ} {t : List σ} {la : List Int} {st : Bool} {p : 
 
 theorem nextWriter_run {sh : Sh σ} {segs : List Seg} {clk now tx : Int} {seen : Nat} (h : ShRelR sem sh segs clk)
     (hpc : PcInv sem sh clk (.nextW tx seen)) (hle : clk ≤ now) :
-    ∃ A', AbsStepN (.running segs) now (nextWriter ops sh tx seen now).2 A' ∧
-      ShRel sem (nextWriter ops sh tx seen now).1 A' now ∧
+    ∃ segs', AbsStepN (.running segs) now (nextWriter ops sh tx seen now).2 (.running segs') ∧
+      ShRel sem (nextWriter ops sh tx seen now).1 (.running segs') now ∧
       GotoOK sem (nextWriter ops sh tx seen now).1 now (nextWriter ops sh tx seen now).2 ∧
       Adv sem sh clk (nextWriter ops sh tx seen now).1 now := by
   obtain ⟨cs, la, started⟩ := sh
@@ -325,7 +326,7 @@ theorem nextWriter_run {sh : Sh σ} {segs : List Seg} {clk now tx : Int} {seen :
     cases hok : (segNext segsH now).2.2 with
     | true =>
       simp only [Bool.true_or, if_true]
-      refine ⟨.running (dead ++ (segNext segsH now).1 ++ inst ps.flatten (finOf segsH 0)), ?_, ?_, trivial, hadv⟩
+      refine ⟨(dead ++ (segNext segsH now).1 ++ inst ps.flatten (finOf segsH 0)), ?_, ?_, trivial, hadv⟩
       · exact absNext_running _ now _ _ _ (segNext_mid dead segsH _ clk now hD hle hne hok) hok
       · exact ⟨c', rest, dead, _, ps, rfl, rfl, rfl, hR', hU, hD', by unfold segNext; rw [finOf_segNextAux]⟩
     | false =>
@@ -336,7 +337,7 @@ theorem nextWriter_run {sh : Sh σ} {segs : List Seg} {clk now tx : Int} {seen :
       match rest, ps, hU with
       | [], [], _ =>
         simp only [List.length_singleton, beq_self_eq_true, if_true]
-        refine ⟨.running (dead ++ segsH ++ inst ([] : List (List Part)).flatten (finOf segsH 0)), ?_, ?_, trivial, hadv⟩
+        refine ⟨(dead ++ segsH ++ inst ([] : List (List Part)).flatten (finOf segsH 0)), ?_, ?_, trivial, hadv⟩
         · refine absNext_running _ now _ _ _ ?_ hok
           simp only [List.flatten_nil, inst, List.append_nil]
           rw [segNext_last dead segsH clk now hD hle hne, hsame']
@@ -344,7 +345,7 @@ theorem nextWriter_run {sh : Sh σ} {segs : List Seg} {clk now tx : Int} {seen :
       | h :: t, p :: ps', hU =>
         have : ((c :: h :: t).length == 1) = false := by simp
         simp only [this, Bool.false_eq_true, if_false]
-        exact ⟨.running _, rfl, ⟨c', h :: t, dead, segsH, p :: ps', rfl, rfl, rfl, hR', hU, hD', rfl⟩, rfl, hadv⟩
+        exact ⟨_, rfl, ⟨c', h :: t, dead, segsH, p :: ps', rfl, rfl, rfl, hR', hU, hD', rfl⟩, rfl, hadv⟩
   · -- nobody shifted: the head is the exhausted one we saw
     have heq : (c :: rest).length = seen := by omega
     obtain ⟨c0, rest0, hc0, hdone⟩ := hex heq
@@ -369,7 +370,7 @@ theorem nextWriter_run {sh : Sh σ} {segs : List Seg} {clk now tx : Int} {seen :
       cases hok2 : (segNext (inst p (finOf segsH 0)) now).2.2 with
       | true =>
         simp only [Bool.not_true, Bool.false_and, Bool.false_eq_true, if_false]
-        refine ⟨.running ((dead ++ segsH) ++ (segNext (inst p (finOf segsH 0)) now).1 ++
+        refine ⟨((dead ++ segsH) ++ (segNext (inst p (finOf segsH 0)) now).1 ++
             inst ps'.flatten (finOf (inst p (finOf segsH 0)) 0)), ?_, ?_, trivial, hadv⟩
         · refine absNext_running _ now _ _ _ ?_ hok2
           rw [chain_shift dead segsH p ps' hp]
@@ -380,14 +381,14 @@ theorem nextWriter_run {sh : Sh σ} {segs : List Seg} {clk now tx : Int} {seen :
         have hsame2' : (segNext (inst p (finOf segsH 0)) now).1 = inst p (finOf segsH 0) := hsame2
         rw [hsame2'] at hR2
         simp only [Bool.not_false, hgt, Bool.and_self, if_true]
-        refine ⟨.running _, rfl, ?_, rfl, hadv⟩
+        refine ⟨_, rfl, ?_, rfl, hadv⟩
         refine ⟨h2, t, dead ++ segsH, inst p (finOf segsH 0), ps', rfl, rfl, rfl, hR2, hU.2, hD2, ?_⟩
         exact chain_shift dead segsH p ps' hp
 
 theorem leftWriter_run {sh : Sh σ} {segs : List Seg} {clk now : Int} {seen : Nat} (h : ShRelR sem sh segs clk)
     (hpc : PcInv sem sh clk (.leftW seen)) (hle : clk ≤ now) :
-    ∃ A', AbsStepN (.running segs) now (leftWriter ops sh seen now).2 A' ∧
-      ShRel sem (leftWriter ops sh seen now).1 A' now ∧
+    ∃ segs', AbsStepN (.running segs) now (leftWriter ops sh seen now).2 (.running segs') ∧
+      ShRel sem (leftWriter ops sh seen now).1 (.running segs') now ∧
       GotoOK sem (leftWriter ops sh seen now).1 now (leftWriter ops sh seen now).2 ∧
       Adv sem sh clk (leftWriter ops sh seen now).1 now := by
   obtain ⟨cs, la, started⟩ := sh
@@ -422,12 +423,12 @@ theorem leftWriter_run {sh : Sh σ} {segs : List Seg} {clk now : Int} {seen : Na
       obtain ⟨h1, hsn, hR1⟩ := startNext_run sem (c := c') (t := t) (la := sufsP (p :: ps')) (st := true) hU.1 (finOf segsH 0)
       rw [hsn]
       have hD2 : Dead (dead ++ segsH) now := (dead_append _ _ _).mpr ⟨hD', hdeadH⟩
-      refine ⟨.running _, rfl, ?_, trivial, ⟨id, Or.inl (by simp)⟩⟩
+      refine ⟨_, rfl, ?_, trivial, ⟨id, Or.inl (by simp)⟩⟩
       exact ⟨h1, t, dead ++ segsH, inst p (finOf segsH 0), ps', rfl, rfl, rfl, hR1 now, hU.2, hD2,
         chain_shift dead segsH p ps' hp⟩
   · have hb : ((c :: rest).length == seen) = false := by simpa using heq
     simp only [hb, Bool.false_eq_true, if_false]
-    exact ⟨.running _, rfl, hkeep, trivial, Adv.refl sem _ hle⟩
+    exact ⟨_, rfl, hkeep, trivial, Adv.refl sem _ hle⟩
 
 /-! ### the reader section of `Left`, on any schedule -/
 
@@ -593,9 +594,9 @@ theorem lift_unstarted {sh : Sh σ} {parts : List Part} {clk now : Int} (f : Sh 
     (hcongr : ∀ c rest s1, sh.cs = c :: rest → ops.next c now = ops.next s1 now →
       SameRes (f sh) (f ⟨s1 :: rest, sh.la, sh.started⟩))
     (hrun : ∀ sh1, ShRelR sem sh1 (inst parts now) now → Adv sem sh clk sh1 now →
-      ∃ A', AbsStepN (.running (inst parts now)) now (f sh1).2 A' ∧ ShRel sem (f sh1).1 A' now ∧
+      ∃ segs', AbsStepN (.running (inst parts now)) now (f sh1).2 (.running segs') ∧ ShRel sem (f sh1).1 (.running segs') now ∧
         GotoOK sem (f sh1).1 now (f sh1).2 ∧ Adv sem sh1 now (f sh1).1 now) :
-    ∃ A', AbsStep (.unstarted parts) now (f sh).2 A' ∧ ShRel sem (f sh).1 A' now ∧
+    ∃ segs', AbsStep (.unstarted parts) now (f sh).2 (.running segs') ∧ ShRel sem (f sh).1 (.running segs') now ∧
       GotoOK sem (f sh).1 now (f sh).2 ∧ Adv sem sh clk (f sh).1 now := by
   obtain ⟨c, rest, s1, hcs, hn, hR, hadv⟩ := virt_start sem h hs hle
   obtain ⟨A', h1, h2, h3, h4⟩ := hrun _ hR hadv
@@ -652,13 +653,16 @@ theorem section_ok {sh : Sh σ} {A : Abs} {clk now : Int} (pc : Pc) (op : Op) (h
     (hpc : PcInv sem sh clk pc) (hle : clk ≤ now) :
     ∃ A', AbsStep A now (runSection ops sh pc op now).2 A' ∧ ShRel sem (runSection ops sh pc op now).1 A' now ∧
       GotoOK sem (runSection ops sh pc op now).1 now (runSection ops sh pc op now).2 ∧
-      Adv sem sh clk (runSection ops sh pc op now).1 now := by
+      Adv sem sh clk (runSection ops sh pc op now).1 now ∧
+      (∀ parts, A' = .unstarted parts → A = .unstarted parts ∧
+        (pc = .idle ∨ ((∃ seen, pc = .leftW seen) ∧ (runSection ops sh pc op now).1 = sh))) := by
   cases pc with
   | idle =>
     cases op with
     | next =>
       -- started.Store(true)
-      refine ⟨A, Or.inl rfl, ?_, rfl, ⟨fun _ => rfl, Or.inr ⟨rfl, fun c rest hc => ⟨c, hc, headTrans_refl sem c hle⟩⟩⟩⟩
+      refine ⟨A, Or.inl rfl, ?_, rfl, ⟨fun _ => rfl, Or.inr ⟨rfl, fun c rest hc => ⟨c, hc, headTrans_refl sem c hle⟩⟩⟩,
+        fun _ h => ⟨h, Or.inl rfl⟩⟩
       cases A with
       | unstarted parts =>
         obtain ⟨c, rest, p, ps, h1, h2, h3, h4, h5⟩ := h
@@ -666,68 +670,107 @@ theorem section_ok {sh : Sh σ} {A : Abs} {clk now : Int} (pc : Pc) (op : Op) (h
       | running segs =>
         obtain ⟨c, rest, dead, segsH, ps, h1, h2, h3, hR, hU, hD, h4⟩ := h
         exact ⟨c, rest, dead, segsH, ps, h1, h2, rfl, sem.R_mono hR hle, hU, dead_mono hD hle, h4⟩
-    | left => exact leftReader_ok sem h hle
+    | left =>
+      obtain ⟨A', h1, h2, h3, h4⟩ := leftReader_ok sem (ops := ops) h hle
+      refine ⟨A', h1, h2, h3, h4, fun parts hA' => ⟨?_, Or.inl rfl⟩⟩
+      -- a reader section of Left never changes the abstract state
+      subst hA'
+      generalize (leftReader ops sh now).2 = out at h1
+      cases out with
+      | ret r =>
+        cases r with
+        | tok tx ok => simp [AbsStep, absNext] at h1
+        | cnt n => exact h1.2.symm
+        | panic m => exact absurd h1 (by simp [AbsStep])
+      | goto pc' =>
+        rcases h1 with h1 | ⟨p, _, h1⟩
+        · exact h1.symm
+        · cases h1
   | nextB =>
     show ∃ A', AbsStep A now (nextReader ops sh now).2 A' ∧ _
     cases A with
     | unstarted parts =>
-      refine lift_unstarted sem (fun s => nextReader ops s now) h hpc hle ?_ ?_
-      · intro c rest s1 hcs hn
-        obtain ⟨cs, la, st⟩ := sh
-        simp only at hcs; subst hcs
-        exact nextReader_congr hn
-      · intro sh1 hR _
-        exact nextReader_run sem hR (Int.le_refl _)
+      obtain ⟨segs', h1, h2, h3, h4⟩ := lift_unstarted sem (fun s => nextReader ops s now) h hpc hle
+        (by
+          intro c rest s1 hcs hn
+          obtain ⟨cs, la, st⟩ := sh
+          simp only at hcs; subst hcs
+          exact nextReader_congr hn)
+        (by
+          intro sh1 hR _
+          exact nextReader_run sem hR (Int.le_refl _))
+      exact ⟨.running segs', h1, h2, h3, h4, fun _ h => by cases h⟩
     | running segs =>
-      obtain ⟨A', h1, h2, h3, h4⟩ := nextReader_run sem (ops := ops) h hle
-      exact ⟨A', h1.toStep, h2, h3, h4⟩
+      obtain ⟨segs', h1, h2, h3, h4⟩ := nextReader_run sem (ops := ops) h hle
+      exact ⟨.running segs', h1.toStep, h2, h3, h4, fun _ h => by cases h⟩
   | nextW tx seen =>
     show ∃ A', AbsStep A now (nextWriter ops sh tx seen now).2 A' ∧ _
     cases A with
     | unstarted parts =>
-      refine lift_unstarted sem (fun s => nextWriter ops s tx seen now) h hpc.1 hle ?_ ?_
-      · intro c rest s1 hcs hn
-        obtain ⟨cs, la, st⟩ := sh
-        simp only at hcs; subst hcs
-        exact nextWriter_congr hn
-      · intro sh1 hR hadv
-        exact nextWriter_run sem hR (hpc.adv sem hadv) (Int.le_refl _)
+      obtain ⟨segs', h1, h2, h3, h4⟩ := lift_unstarted sem (fun s => nextWriter ops s tx seen now) h hpc.1 hle
+        (by
+          intro c rest s1 hcs hn
+          obtain ⟨cs, la, st⟩ := sh
+          simp only at hcs; subst hcs
+          exact nextWriter_congr hn)
+        (by
+          intro sh1 hR hadv
+          exact nextWriter_run sem hR (hpc.adv sem hadv) (Int.le_refl _))
+      exact ⟨.running segs', h1, h2, h3, h4, fun _ h => by cases h⟩
     | running segs =>
-      obtain ⟨A', h1, h2, h3, h4⟩ := nextWriter_run sem (ops := ops) h hpc hle
-      exact ⟨A', h1.toStep, h2, h3, h4⟩
+      obtain ⟨segs', h1, h2, h3, h4⟩ := nextWriter_run sem (ops := ops) h hpc hle
+      exact ⟨.running segs', h1.toStep, h2, h3, h4, fun _ h => by cases h⟩
   | leftW seen =>
     show ∃ A', AbsStep A now (leftWriter ops sh seen now).2 A' ∧ _
     cases A with
     | unstarted parts =>
       by_cases heq : sh.cs.length = seen
-      · refine lift_unstarted sem (fun s => leftWriter ops s seen now) h hpc.1 hle ?_ ?_
-        · intro c rest s1 hcs hn
-          obtain ⟨cs, la, st⟩ := sh
-          simp only at hcs heq; subst hcs
-          exact leftWriter_congr hn heq
-        · intro sh1 hR hadv
-          exact leftWriter_run sem hR (hpc.adv sem hadv) (Int.le_refl _)
+      · obtain ⟨segs', h1, h2, h3, h4⟩ := lift_unstarted sem (fun s => leftWriter ops s seen now) h hpc.1 hle
+          (by
+            intro c rest s1 hcs hn
+            obtain ⟨cs, la, st⟩ := sh
+            simp only at hcs heq; subst hcs
+            exact leftWriter_congr hn heq)
+          (by
+            intro sh1 hR hadv
+            exact leftWriter_run sem hR (hpc.adv sem hadv) (Int.le_refl _))
+        exact ⟨.running segs', h1, h2, h3, h4, fun _ h => by cases h⟩
       · have hb : (sh.cs.length == seen) = false := by simpa using heq
         have hlw : leftWriter ops sh seen now = (sh, .goto .idle) := by
           simp only [leftWriter, hb, Bool.false_eq_true, if_false]
         show ∃ A', AbsStep _ now (leftWriter ops sh seen now).2 A' ∧ ShRel sem (leftWriter ops sh seen now).1 A' now ∧
           GotoOK sem (leftWriter ops sh seen now).1 now (leftWriter ops sh seen now).2 ∧
-          Adv sem sh clk (leftWriter ops sh seen now).1 now
+          Adv sem sh clk (leftWriter ops sh seen now).1 now ∧
+          (∀ parts', A' = .unstarted parts' → Abs.unstarted parts = .unstarted parts' ∧
+            (Pc.leftW seen = .idle ∨ ((∃ seen', Pc.leftW seen = .leftW seen') ∧ (leftWriter ops sh seen now).1 = sh)))
         rw [hlw]
-        exact ⟨_, Or.inl rfl, h.mono sem hle, trivial, Adv.refl sem _ hle⟩
+        exact ⟨_, Or.inl rfl, h.mono sem hle, trivial, Adv.refl sem _ hle, fun _ h => ⟨h, Or.inr ⟨⟨seen, rfl⟩, rfl⟩⟩⟩
     | running segs =>
-      obtain ⟨A', h1, h2, h3, h4⟩ := leftWriter_run sem (ops := ops) h hpc hle
-      exact ⟨A', h1.toStep, h2, h3, h4⟩
+      obtain ⟨segs', h1, h2, h3, h4⟩ := leftWriter_run sem (ops := ops) h hpc hle
+      exact ⟨.running segs', h1.toStep, h2, h3, h4, fun _ h => by cases h⟩
 
 /-! ### the global invariant -/
 
+theorem leftReader_started (sh : Sh σ) (now : Int) : (leftReader ops sh now).1.started = sh.started := by
+  unfold leftReader
+  split
+  · rfl
+  · split
+    · rfl
+    · simp only
+      repeat' split
+      all_goals rfl
+
+/-- `Reach` + what the shared state stands for + what the waiting callers know + an unstarted schedule whose
+`started` flag is set has a caller inside `Next` (between `started.Store(true)` and its reader section) -/
 def Inv (A0 : Abs) (st : St σ) (clk : Int) : Prop :=
-  ∃ A, Reach A0 st.log A ∧ ShRel sem st.sh A clk ∧ ∀ th ∈ st.thr, PcInv sem st.sh clk th.pc
+  ∃ A, Reach A0 st.log A ∧ ShRel sem st.sh A clk ∧ (∀ th ∈ st.thr, PcInv sem st.sh clk th.pc) ∧
+    (∀ parts, A = .unstarted parts → st.sh.started = true → ∃ (i : Nat) (th : Thread), st.thr[i]? = some th ∧ th.pc = Pc.nextB)
 
 theorem Inv.mono {A0 : Abs} {st : St σ} {clk clk' : Int} (h : Inv sem A0 st clk) (hle : clk ≤ clk') :
     Inv sem A0 st clk' := by
-  obtain ⟨A, h1, h2, h3⟩ := h
-  exact ⟨A, h1, h2.mono sem hle, fun th hth => (h3 th hth).adv sem (Adv.refl sem _ hle)⟩
+  obtain ⟨A, h1, h2, h3, h4⟩ := h
+  exact ⟨A, h1, h2.mono sem hle, fun th hth => (h3 th hth).adv sem (Adv.refl sem _ hle), h4⟩
 
 theorem step_inv {A0 : Abs} {st : St σ} {clk : Int} (e : Nat × Int) (hinv : Inv sem A0 st clk) (hle : clk ≤ e.2) :
     Inv sem A0 (step ops st e) e.2 := by
@@ -740,26 +783,70 @@ theorem step_inv {A0 : Abs} {st : St σ} {clk : Int} (e : Nat × Int) (hinv : In
     | nil => exact hinv.mono sem hle
     | cons op more =>
       simp only
-      obtain ⟨A, hreach, hrel, hthr⟩ := hinv
+      obtain ⟨A, hreach, hrel, hthr, hnb⟩ := hinv
       have hmem : th ∈ st.thr := List.mem_of_getElem? hth
-      obtain ⟨A', hstep, hrel', hgoto, hadv⟩ := section_ok sem (ops := ops) th.pc op hrel (hthr th hmem) hle
-      generalize runSection ops st.sh th.pc op e.2 = r at *
+      have hlt : e.1 < st.thr.length := by
+        rcases Nat.lt_or_ge e.1 st.thr.length with h | h
+        · exact h
+        · rw [List.getElem?_eq_none h] at hth; cases hth
+      obtain ⟨A', hstep, hrel', hgoto, hadv, hkeep⟩ := section_ok sem (ops := ops) th.pc op hrel (hthr th hmem) hle
+      -- the callers inside `Next` of an unstarted schedule
+      have hnb' : ∀ (newth : Thread), (∀ parts, A' = .unstarted parts →
+            (runSection ops st.sh th.pc op e.2).1.started = true → th.pc = .idle → op = .next → newth.pc = .nextB) →
+          ∀ parts, A' = .unstarted parts → (runSection ops st.sh th.pc op e.2).1.started = true →
+          ∃ (i : Nat) (th' : Thread), (st.thr.set e.1 newth)[i]? = some th' ∧ th'.pc = Pc.nextB := by
+        intro newth hnew parts hA' hst'
+        obtain ⟨hA, hcase⟩ := hkeep parts hA'
+        have hold : st.sh.started = true → ∃ (i : Nat) (th' : Thread), (st.thr.set e.1 newth)[i]? = some th' ∧ th'.pc = Pc.nextB := by
+          intro hs
+          obtain ⟨i, thi, hi, hpi⟩ := hnb parts hA hs
+          by_cases hie : i = e.1
+          · subst hie
+            rw [hth] at hi; cases hi
+            rcases hcase with hc | ⟨⟨seen, hc⟩, _⟩ <;> rw [hc] at hpi <;> cases hpi
+          · exact ⟨i, thi, by rw [List.getElem?_set_ne (Ne.symm hie)]; exact hi, hpi⟩
+        rcases hcase with hc | ⟨_, hsame⟩
+        · cases op with
+          | next => exact ⟨e.1, newth, by simp [hlt], hnew parts hA' hst' hc rfl⟩
+          | left =>
+            have : (runSection ops st.sh th.pc Op.left e.2).1.started = st.sh.started := by
+              rw [hc]; exact leftReader_started st.sh e.2
+            exact hold (by rw [← this]; exact hst')
+        · exact hold (by rw [← hsame]; exact hst')
+      generalize hr : runSection ops st.sh th.pc op e.2 = r at *
       obtain ⟨sh', out⟩ := r
-      simp only at hstep hrel' hgoto hadv
+      simp only at hstep hrel' hgoto hadv hnb'
       unfold applyOut
       cases out with
       | goto pc =>
-        refine ⟨A', ⟨A, hreach, hstep⟩, hrel', ?_⟩
-        intro y hy
-        rcases List.mem_or_eq_of_mem_set hy with hy | rfl
-        · exact (hthr y hy).adv sem hadv
-        · exact hgoto
+        refine ⟨A', ⟨A, hreach, hstep⟩, hrel', ?_, ?_⟩
+        · intro y hy
+          rcases List.mem_or_eq_of_mem_set hy with hy | rfl
+          · exact (hthr y hy).adv sem hadv
+          · exact hgoto
+        · refine hnb' { th with pc := pc } ?_
+          intro parts _ _ hc hop
+          subst hop
+          rw [hc] at hr
+          have : (nextBegin st.sh).2 = Out.goto pc := by
+            have := congrArg Prod.snd hr
+            simpa [runSection] using this
+          simp only [nextBegin, Out.goto.injEq] at this
+          exact this.symm
       | ret r =>
-        refine ⟨A', ⟨A, hreach, hstep⟩, hrel', ?_⟩
-        intro y hy
-        rcases List.mem_or_eq_of_mem_set hy with hy | rfl
-        · exact (hthr y hy).adv sem hadv
-        · trivial
+        refine ⟨A', ⟨A, hreach, hstep⟩, hrel', ?_, ?_⟩
+        · intro y hy
+          rcases List.mem_or_eq_of_mem_set hy with hy | rfl
+          · exact (hthr y hy).adv sem hadv
+          · trivial
+        · refine hnb' { pc := .idle, todo := more } ?_
+          intro parts _ _ hc hop
+          subst hop
+          rw [hc] at hr
+          have : (nextBegin st.sh).2 = Out.ret r := by
+            have := congrArg Prod.snd hr
+            simpa [runSection] using this
+          simp [nextBegin] at this
 
 /-- clock readings never go back -/
 def ClockOK : Int → List (Nat × Int) → Prop
